@@ -11,6 +11,8 @@ pub const OPERANDS: &[&str] = &[
     "A(1).F", "R.S",
     // whole arrays, and undefined functions of both kinds
     "A()", "A$()", "NOF(1)", "NOF$(1)",
+    // property chains
+    "A(1).F.G", "R.F.G",
 ];
 
 /// Declarations placed before every instantiated template, so that the names of
